@@ -103,7 +103,7 @@ Theorem C04_path_source_facts :
   canon_FatPath_rmdir = "cd50a252695244d6"%string /\\
   canon_FatPath_touch = "1c2f44c844ebe6d8"%string /\\
   canon_FatPath_priv_must_be_named = "59d9a08179330008"%string /\\
-  canon_FatPath_resolve = "596befdb77446bbc"%string /\\
+  canon_FatPath_resolve = "e816e2b776241143"%string /\\
   canon_get_parts = "fac8ba5c77581023"%string /\\
   fatpath_mutators_refuse_dot_names = true.
 Proof. repeat split; reflexivity. Qed.
